@@ -318,8 +318,20 @@ class Shard(ShardCMC):
                 data_size += len(minishard.databytearray)
                 del minishard.databytearray
 
+            # The shard index has one (start, end) entry per minishard
+            # NUMBER: entry k must describe minishard k. Minishards that are
+            # not used get an empty range at their own slot.
+            sorted_keys = sorted(self.minishard_dict.keys())
+            keys_are_slots = all(
+                isinstance(key, (int, np.integer)) for key in sorted_keys
+            )
             sh_size = 0
-            for minishard in sorted_mini_dict:
+            for key, minishard in zip(sorted_keys, sorted_mini_dict):
+                if keys_are_slots:
+                    while len(sh_idx_buf) < int(key) * 16:
+                        sh_idx_buf += struct.pack("<Q", data_size + sh_size)
+                        sh_idx_buf += struct.pack("<Q", data_size + sh_size)
+
                 # turning [0, 1, 2, 3, 4, 5] into [0, 3, 1, 4, 2, 5]
                 num_cols = int(len(minishard.header) / 3)
                 hdr_buf = np.reshape(minishard.header, (3, num_cols),
